@@ -149,6 +149,10 @@ class Engine:
         self.stats['feas_queries'] += 1
         if self.deadline and time.time() > self.deadline:
             raise Unsupported('time budget of the unit exhausted during path exploration')
+        if self.options.get('feas_abstract_seq'):
+            # opt-in: prune over an abstraction of the sequence theory (strict over-approximation, see absfeas.py)
+            from . import absfeas
+            return absfeas.feasible(self, st, extra, int(self.options.get('feas_ms') or FEAS_TIMEOUT_MS))
         s = z3.Solver()
         # contract option feas_ms: budget of one pruning query (a time-out keeps the path, so it only costs time)
         s.set('timeout', int(self.options.get('feas_ms') or FEAS_TIMEOUT_MS))
